@@ -243,9 +243,20 @@ fn v1_loop<'a>(
         r is Err ==> final(violations)@ == old(violations)@, // [V1.post.err_leaves_report]
 //@tail
     proof {
-        if let Some(i) = reported {
+        if violations@ != old(violations)@ {
+            let (i, v) = choose|i: int, v: Violation| first_stop(sort_format, violating_ord, keys, i)
+                && out_of_order(sort_format, violating_ord, keys, i)
+                && violations@.dom() == old(violations)@.dom().insert(*file_path)
+                && violations@[*file_path]@ == map_get_or_empty(old(violations)@, *file_path).push(v)
+                && #[trigger] key_range_ok(v, block_with_context.block, re, content_of(block_with_context.block, file_blocks.file_content@), i)
+                && v.code@ == "keep-sorted"@;
             assert(first_stop(sort_format, violating_ord, keys_of(re, content_of(block_with_context.block, file_blocks.file_content@)), i));
             assert(out_of_order(sort_format, violating_ord, keys_of(re, content_of(block_with_context.block, file_blocks.file_content@)), i));
+            // first_stop is unique: any other first stop j has neither j < i nor i < j
+            assert forall|j: int| first_stop(sort_format, violating_ord, keys_of(re, content_of(block_with_context.block, file_blocks.file_content@)), j) implies j == i by {
+                if j < i { assert(!out_of_order(sort_format, violating_ord, keys, j) && !cmp_fails(sort_format, keys, j)); }
+                if i < j { assert(!out_of_order(sort_format, violating_ord, keys, i)); }
+            }
         }
     }
     Ok(())
@@ -253,7 +264,6 @@ fn v1_loop<'a>(
 //@dropcall rule=E1 name=with_context
 //@forlines var=ls
         invariant_except_break
-            reported is None,
             violations@ == old(violations)@,
             forall|j: int| 0 <= j < it.index@ ==> !#[trigger] out_of_order(sort_format, violating_ord, keys, j), // [V1.inv.in_order_so_far]
             forall|j: int| 0 <= j < it.index@ ==> !#[trigger] cmp_fails(sort_format, keys, j), // [V1.inv.comparable_so_far]
@@ -267,31 +277,35 @@ fn v1_loop<'a>(
             forall|i: int| 0 <= i < ls@.len() ==> (#[trigger] ls@[i]).0 == i && key_of(re, ls@[i].1@) == keys[i]
                 && ls@[i].1@ == lines_of(content_of(block_with_context.block, file_blocks.file_content@))[i],
         ensures
-            reported is None ==> violations@ == old(violations)@
-                && (forall|j: int| 0 <= j < keys.len() ==> !#[trigger] out_of_order(sort_format, violating_ord, keys, j))
+            violations@ == old(violations)@ ==>
+                   (forall|j: int| 0 <= j < keys.len() ==> !#[trigger] out_of_order(sort_format, violating_ord, keys, j))
                 && (forall|j: int| 0 <= j < keys.len() ==> !#[trigger] cmp_fails(sort_format, keys, j))
                 && (!(re matches Some(Err(_))) || keys.len() == 0),
-            reported matches Some(i) ==> first_stop(sort_format, violating_ord, keys, i) && out_of_order(sort_format, violating_ord, keys, i)
-                && exists|v: Violation|
-                   violations@.dom() == old(violations)@.dom().insert(*file_path)
+            violations@ != old(violations)@ ==> exists|i: int, v: Violation| first_stop(sort_format, violating_ord, keys, i) // [V1.inv.break_reports_first_out_of_order]
+                && out_of_order(sort_format, violating_ord, keys, i)
+                && violations@.dom() == old(violations)@.dom().insert(*file_path)
                 && violations@[*file_path]@ == map_get_or_empty(old(violations)@, *file_path).push(v)
-                && key_range_ok(v, block_with_context.block, re, content_of(block_with_context.block, file_blocks.file_content@), i)
+                && #[trigger] key_range_ok(v, block_with_context.block, re, content_of(block_with_context.block, file_blocks.file_content@), i)
                 && v.code@ == "keep-sorted"@,
 //@edit rule=ghost before=<<let mut prev_value>>
     let ghost keys = keys_of(re, content_of(block_with_context.block, file_blocks.file_content@));
-    let ghost mut reported: Option<int> = None;
-//@edit rule=ghost before=<<let value = match &re>>
+//@edit rule=ghost before=<<let value = match &re>> optional=1
                         assert(line_number == it.index@);
-//@edit rule=ghost before=<<if let Some((curr_val, curr_range)) = value>>
+//@edit rule=ghost before=<<if let Some((curr_val, curr_range)) = value>> optional=1
                         assert((match value { Some(p) => Some((p.0@, p.1@.start as int, p.1@.end as int)), None => None }) == key_info(re, line@)); // [V1.assert.key_extraction]
-//@edit rule=ghost before=<<let cmp =>>
+//@edit rule=ghost before=<<let cmp =>> optional=1
                                 assert(prev_key(keys, line_number as int) == Some(prev_val@) && keys[line_number as int] == Some(curr_val@));
                                 assert(cmp_fails(sort_format, keys, line_number as int) <==> cmp_spec(sort_format, prev_val@, curr_val@) is Err);
                                 assert(out_of_order(sort_format, violating_ord, keys, line_number as int) <==> cmp_spec(sort_format, prev_val@, curr_val@) == Ok::<Ordering, ()>(violating_ord));
-//@edit rule=E5 find=<<violations.entry(file_path.clone()).or_insert_with(Vec::new).push(>>
+//@edit rule=E5 find=<<violations.entry(file_path.clone()).or_insert_with(Vec::new).push(>> optional=1
 verif_map_push(violations, file_path.clone(),
-//@edit rule=ghost after=<<line_character_end, )?);>>
-                                    proof { reported = Some(line_number as int); }
+//@edit rule=ghost before=<<break;>> optional=1
+                                    proof {
+                                        let v = violations@[*file_path]@.last();
+                                        assert(violations@[*file_path]@.len() == map_get_or_empty(old(violations)@, *file_path).len() + 1);
+                                        assert(violations@[*file_path]@ == map_get_or_empty(old(violations)@, *file_path).push(v));
+                                        assert(key_range_ok(v, block_with_context.block, re, content_of(block_with_context.block, file_blocks.file_content@), line_number as int));
+                                    }
 //@end
 
 } // impl
